@@ -106,6 +106,7 @@ func checkC04(c *Check) {
 		c.Floor("R-action-tokens", len(rs), 10)
 	}
 	actionIDs(c, r)
+	executeSemantics(c, r)
 	forEachRuntime(c, func(a *aggregator, v *rtView) {
 		rtExecute(a, v)
 		// Execute ranges over the whole published token list: it must hold the derivation and nothing else
@@ -156,5 +157,8 @@ func checkC13(c *Check) {
 		rtSentinel(a, v)
 		rtMatchers(a, v)
 		rtRune(a, v)
+		if rtEvalHere(v) {
+			rtMatcherSemantics(a, v)
+		}
 	})
 }
